@@ -282,6 +282,7 @@ PROPERTIES['C10'] = {
 
 V_BUILDER = {'kind': 'verus', 'unit': 'builder', 'cex': 'bx-builder'}
 V_NATIVE = {'kind': 'verus', 'unit': 'native', 'cex': 'bx-resolver'}
+V_GENERIC = {'kind': 'verus', 'unit': 'generic', 'cex': 'bx-builder'}
 
 PROPERTIES['C12'] = {
     'level': 'model_checking',
@@ -398,12 +399,12 @@ PROPERTIES['C02']['explanation'] = ('Alignment and address order are clauses of 
     '(every datum of a variant ends at or before max_size, max_type_align is a multiple of its alignment). Published constants: corpus harnesses assert '
     'MAX_SIZE == capacity of the definition, align_of::<RecordK>() == its alignment, every field offset/size inside.')
 PROPERTIES['C03'] = dict(PROPERTIES['C01'])
-PROPERTIES['C03']['units'] = lambda tier: [V_LAYOUT] + bx_units(tier) + [K_DEF, V_BUILDER, GK]
+PROPERTIES['C03']['units'] = lambda tier: [V_LAYOUT] + bx_units(tier) + [K_DEF, V_BUILDER, V_GENERIC, GK]
 PROPERTIES['C03']['explanation'] = ('First sentence = frame clause of the strategy contract (only offsets of data_to_add change; Verus for append/basic/push_datum, bounded for '
     'simple) + close_record_variant_with leaves earlier variants untouched and add_datum only appends (Verus, unit builder). Second sentence: corpus harnesses '
     'assert equal size_of / align_of of all CappedRecordK<CAP> for CAP = MAX_SIZE, MAX_SIZE+1, 2*MAX_SIZE+3.')
 PROPERTIES['C03']['unchecked'] = ['"a repr(align(N)) struct of one [u8; CAP] has size roundup(CAP, N)" is Rust\'s layout rule: evaluated by the compiler for the corpus instances, assumed in general']
 BXH = {'kind': 'bxh', 'name': 'builder-history'}
-PROPERTIES['C12']['units'] = lambda tier: [V_BUILDER, V_NATIVE, K_B5, BXH, V_LAYOUT] + bx_units(tier) + [K_DEF]
+PROPERTIES['C12']['units'] = lambda tier: [V_BUILDER, V_GENERIC, V_NATIVE, K_B5, BXH, V_LAYOUT] + bx_units(tier) + [K_DEF]
 PROPERTIES['C12']['unchecked'] = ['native builder: remove_datum and build are extracted and proved to delegate (unit native); close_record_variant(_with) and the lookups are one-line delegations that are not extracted',
                                   'name lookups are checked by Kani on a bounded family of states only (unit kani-builder-lookup); Verus uses their contract as an assumption']
